@@ -69,7 +69,7 @@ class _Opaque:
 
 
 def _sub(node, env):
-    return G.substitute(node, env) if env else clone(node)
+    return G.substitute(node, env, recursive=False) if env else clone(node)
 
 
 def _bind(target, value, env, op: _Opaque, events, node, step):
